@@ -139,8 +139,8 @@ def gen_push(rng, label, malformed=False):
                 din, dout, ion, pn = int(q == 0), int(q == 1), int(q == 2), int(q == 3)
                 if q == 4 and tr.may_input():
                     i = -rng.choice((1, 5, 64))
-                if dout and o == 0:
-                    o = 16              # NULL buffer with length 0 is accepted by soxr.c and ends in memcpy(NULL, …, 0): UBSan-only noise
+                # (a NULL data_out with output_frames == 0 is accepted by soxr.c - `!out && len0` is the refusal - and is part of the stream:
+                #  it must leave the converter as it was; it ends in memcpy(NULL, ..., 0), which the report filter below sets aside)
             s.add("process", hx(r), i, o, eoi, din, dout, ion, pn)
             if not (ion or pn):
                 tr.process(r, i, o, eoi, din)
@@ -191,8 +191,6 @@ def gen_pull(rng, label, malformed=False):
                 olen = -1 - rng.below(5)
             if q == 3:
                 r = rng.choice(BAD_RATIOS)
-            if dout and olen == 0:
-                olen = 16
         s.add("read", hx(r), olen, dout, pn, sup)
         if rng.chance(.15):
             s.add("reset", 0)
